@@ -511,6 +511,15 @@ def check_prune(ctx, case, d):
         return [('violation', 'prune-accepts-undefined-reference-timeslice', [tproj, t0proj])]
     if pr.T != T or pr.N != Ntrunc:
         return [('violation', 'prune-wrong-shape', [pr.T, pr.N])]
+    # ... and a usable correlator: blocks (1,) for one retained state, (Ntrunc, Ntrunc) otherwise; the analysis runs
+    want_shape = (1,) if Ntrunc == 1 else (Ntrunc, Ntrunc)
+    for t in range(T):
+        if pr.content[t] is not None and np.asarray(pr.content[t], dtype=object).shape != want_shape:
+            return [('violation', 'prune-malformed', 'N=%d but timeslice %d has shape %r' % (pr.N, t, np.asarray(pr.content[t], dtype=object).shape))]
+    try:
+        pr.gamma_method()
+    except Exception as e:
+        return [('violation', 'prune-malformed', 'gamma_method of the result: ' + repr(e)[:150])]
     # the documented `basematrix` argument: the basis may be taken from another correlator C; with C = 2 G the
     # eigenvectors are those of G, normalised to v^T C(t0) v = 1, hence 1/sqrt(2) times the default ones
     try:
